@@ -57,6 +57,7 @@ _KNOWN_STATE_KEYS = frozenset(
 # 🛡️ Guard combinators evaluated by the engine itself. These are never
 #    user-supplied implementations and must never be emitted as stub names.
 _COMPOSITE_OPERATORS = frozenset({"and", "or", "not"})
+_STATE_IN_GUARD = "stateIn"
 
 # 📝 Purely cosmetic Stately/editor keys — safe to ignore without warning.
 _IGNORED_STATE_KEYS = frozenset({"description"})
@@ -96,6 +97,11 @@ class GuardIR:
             return tuple(out)
         # 📝 A childless composite operator has nothing to implement.
         if self.type in _COMPOSITE_OPERATORS:
+            return ()
+        # 🛡️ `stateIn` is evaluated by the engine. A generated stub called
+        #    `stateIn` would be looked up BEFORE the built-in and replace it
+        #    with `return True`.
+        if self.type == _STATE_IN_GUARD:
             return ()
         return (self.type,)
 
